@@ -40,6 +40,15 @@ else:
 n_thm = sum(len(re.findall(r"^Theorem", open(f).read(), re.M)) for f in glob.glob(str(ROOT / "coq" / "Props" / "C*.v")))
 tmpl = tmpl.replace("119 property theorems", f"{n_thm} property theorems").replace("67 files", f"{len(glob.glob(str(ROOT / 'coq' / 'Proofs' / '*.v')))} files")
 d = (ROOT / "DESIGN.md").read_text()
+import subprocess
+n_fix = subprocess.run(["git", "-C", "/repo", "log", "--oneline"], capture_output=True, text=True).stdout.count(" fix:")
+n_gen = sum(len(re.findall(r"^Definition gen_", open(f).read(), re.M)) for f in glob.glob(str(ROOT / "coq" / "Gen" / "K_*.v")))
+kf = json.loads((ROOT / "known_findings.json").read_text())
+n_f = max(int(''.join(ch for ch in e['id'][1:] if ch.isdigit())) for e in kf if e['id'].startswith('F'))
+line = (f"End-of-build numbers (regenerated with section 10): {n_thm} property theorems in `coq/Props` (all closed under the global context), {n_gen} definitions re-translated from the "
+        f"source on every run, {n_fix} `fix:` commits in `/repo` for the findings F1–F{n_f} (one known finding, K1), {len(rows) - 2} validated seeded changes in `seeded/`.")
+d = re.sub(r"End-of-build numbers \(regenerated with section 10\):.*\n", "", d)
+d = d.replace("the unchanged tree and their disposition; section 6 is the trusted base.\n", "the unchanged tree and their disposition; section 6 is the trusted base.\n" + line + "\n", 1)
 a = d.find("--------------------------------------------------------------------------------\n## 10. As built")
 b = d.find("--------------------------------------------------------------------------------\n## Appendix A")
 if a < 0: a = b
